@@ -6,6 +6,7 @@ Require Import BB.Base.Str BB.Base.Xml BB.Model.PegSyntax BB.Model.Unparse.
 Require Import BB.Gen.Grammar BB.Gen.TablesXsl.
 Require Import BB.Base.Dict BB.Model.Peg BB.Model.Types BB.Proofs.Tables BB.Proofs.EscapeLossless.
 Require Import BB.Proofs.Totality BB.Proofs.PegPlain BB.Proofs.EscapedTextParses.
+Require Import BB.Model.UnparseDoc BB.Proofs.UnparseText.
 
 (* the hand-maintained keyword list of escape-prefixes covers every keyword literal of the grammar,
    except the committed gaps *)
@@ -62,6 +63,15 @@ Proof.
   split; [|discriminate].
   repeat (apply Forall_cons; [left; apply N.leb_le; vm_compute; reflexivity|]). apply Forall_nil.
 Qed.
+
+(* every text node, in every context (Model/UnparseDoc.v models all templates of the stylesheet and is
+   tied to libxslt by the unp stage): what the unparser writes for it reads back, with the parser's
+   unescape, as the text itself - line breaks as spaces, leading whitespace trimmed exactly where the
+   stylesheet trims it (first text of p / list introduction / wrap-up, after a line break in a remark) *)
+Theorem C06_text_node_lossless : forall c s,
+  unescape (text_out c s) = nl_to_space (if trimmed c then string_ltrim s else s).
+Proof. exact text_out_lossless. Qed.
+Print Assumptions C06_text_node_lossless.
 
 Example C06_example_live : has_live (of_string "a **b** c") = true /\ has_live (of_string "a \**b") = false.
 Proof. split; vm_compute; reflexivity. Qed.
